@@ -250,4 +250,98 @@ theorem sortedPairs_cvrList (base : List Sampling.Card) (num : Nat → Nat) (hnu
     rw [hcl, pairAt_num _ _ _ _ ha', pairAt_num _ _ _ _ hb']
     exact hnum hab
 
+/-! ### one call of `consistent_sampling` along an order -/
+
+theorem firstCards_cvrList (base : List Sampling.Card) (num : Nat → Nat) (hnum : StrictMono num) (π : List Nat)
+    (hπ : π.Perm (List.range base.length)) (cid : String) (n : Nat) :
+    (Sampling.firstCards (Sampling.sortedPairs (cvrList base num π)) cid n).map (·.2)
+      = (π.filter (lists base cid)).take n := by
+  unfold Sampling.firstCards Sampling.cCards
+  rw [sortedPairs_cvrList base num hnum π hπ, List.filter_map]
+  have h1 : ((fun p : Sampling.Card × Nat => p.1.has cid) ∘ pairAt (cvrList base num π)) = lists base cid := by
+    funext i; exact pairAt_has base num π cid i
+  rw [h1, ← List.map_take, List.map_map]
+  have h2 : ((fun p : Sampling.Card × Nat => p.2) ∘ pairAt (cvrList base num π)) = id := by
+    funext i; rfl
+  rw [h2, List.map_id]
+
+theorem filter_has_length (l : List Sampling.Card) (cid : String) :
+    (l.filter (fun cd => cd.has cid)).length = ((l.map (·.styles)).filter (fun s => s.contains cid)).length := by
+  rw [List.filter_map, List.length_map]
+  rfl
+
+theorem cvrList_count (base : List Sampling.Card) (num : Nat → Nat) (π : List Nat) (cid : String) :
+    ((cvrList base num π).filter (fun cd => cd.has cid)).length = (base.filter (fun cd => cd.has cid)).length := by
+  rw [filter_has_length, filter_has_length]
+  unfold cvrList
+  rw [(C07.sample_nums_function_of_seed_and_position _ base).2.1]
+
+/-- the datum of card `i` for assertion `name` of contest `cid`: `val cid name i` if the card lists the contest
+(`mvrs_to_data` under style), nothing otherwise -/
+def datum (base : List Sampling.Card) (val : String → String → Nat → ℚ) (cid name : String) (i : Nat) : Option ℚ :=
+  if lists base cid i then some (val cid name i) else none
+
+theorem filter_map_eq_filterMap {α β : Type} (p : α → Bool) (f : α → β) : ∀ l : List α,
+    (l.filter p).map f = l.filterMap (fun i => if p i then some (f i) else none)
+  | [] => rfl
+  | x :: l => by
+    by_cases hx : p x = true
+    · simp [hx, filter_map_eq_filterMap p f l]
+    · simp [hx, filter_map_eq_filterMap p f l]
+
+/-- a prefix of the used items is the used part of a prefix of all items -/
+theorem take_filterMap_prefix {α β : Type} (d : α → Option β) : ∀ (L : List α) (m : Nat),
+    ∃ k, (L.take k).filterMap d = (L.filterMap d).take m
+  | [], m => ⟨0, by simp⟩
+  | x :: L, 0 => ⟨0, by simp⟩
+  | x :: L, m + 1 => by
+    cases hx : d x with
+    | none =>
+      obtain ⟨k, hk⟩ := take_filterMap_prefix d L (m + 1)
+      exact ⟨k + 1, by simp [hx, hk]⟩
+    | some y =>
+      obtain ⟨k, hk⟩ := take_filterMap_prefix d L m
+      exact ⟨k + 1, by simp [hx, hk]⟩
+
+/-- the data values of a contest's first `n` cards are the values of the used cards of a prefix of the order -/
+theorem data_prefix (base : List Sampling.Card) (val : String → String → Nat → ℚ) (cid name : String)
+    (π : List Nat) (n : Nat) :
+    ∃ k, ((π.filter (lists base cid)).take n).map (val cid name) = (π.take k).filterMap (datum base val cid name) := by
+  obtain ⟨k, hk⟩ := take_filterMap_prefix (datum base val cid name) π n
+  refine ⟨k, ?_⟩
+  rw [hk, List.map_take, filter_map_eq_filterMap]
+  rfl
+
+theorem cvrList_wf (base : List Sampling.Card) (num : Nat → Nat) (hnum : StrictMono num) (π : List Nat)
+    (hπ : π.Perm (List.range base.length)) (contests : List Sampling.Contest)
+    (hids : (contests.map (·.id)).Nodup)
+    (hsz : ∀ con ∈ contests, con.sampleSize ≤ (base.filter (fun cd => cd.has con.id)).length) :
+    C07.Wf (cvrList base num π) contests :=
+  ⟨cvrList_distinct base num hnum π hπ, hids, fun con hm => by rw [cvrList_count]; exact hsz con hm⟩
+
+/-- **Part 1 (deterministic, for every order).**  `base` is the card list in manifest order, `π` any order of
+its indices, the sample numbers any strictly increasing numbering along `π`.  For every contest list with distinct
+ids and sizes within range, every acceptable carried-over list (or none): `consistent_sampling` succeeds, and for
+every contest `c` with `n_c ≥ 1` the cards that pass `mvrs_to_data`'s filter are the first `n_c` entries of the
+sub-order of `π` of the cards listing `c`; the data values handed to any of its assertions are the used values of
+a prefix of `π` itself. -/
+theorem cs_contest_data_prefix (base : List Sampling.Card) (num : Nat → Nat) (hnum : StrictMono num) (π : List Nat)
+    (hπ : π.Perm (List.range base.length)) (contests : List Sampling.Contest)
+    (hids : (contests.map (·.id)).Nodup)
+    (hsz : ∀ con ∈ contests, con.sampleSize ≤ (base.filter (fun cd => cd.has con.id)).length)
+    (prev : Option (List Nat)) (hp : C10.PrevOk (cvrList base num π) (prev.getD [])) :
+    ∃ sel flags, Sampling.consistentSampling (cvrList base num π) contests prev =
+        .ok (sel, contests.map (C07.outContest (cvrList base num π)), flags) ∧
+      ∀ con ∈ contests, 1 ≤ con.sampleSize →
+        Sampling.Rounds.dataCards true (cvrList base num π) (C07.outContest (cvrList base num π) con) sel =
+          .ok ((π.filter (lists base con.id)).take con.sampleSize) ∧
+        ∀ (val : String → String → Nat → ℚ) (name : String), ∃ k,
+          ((π.filter (lists base con.id)).take con.sampleSize).map (val con.id name)
+            = (π.take k).filterMap (datum base val con.id name) := by
+  obtain ⟨sel, flags, he, hd⟩ := C10.contest_data_eq_any_prev (cvrList_wf base num hnum π hπ contests hids hsz) prev hp
+  refine ⟨sel, flags, he, ?_⟩
+  intro con hm h1
+  refine ⟨?_, fun val name => data_prefix base val con.id name π con.sampleSize⟩
+  rw [hd con hm h1, firstCards_cvrList base num hnum π hπ]
+
 end Shangrla.RiskLimit
